@@ -1,6 +1,8 @@
 import Exetera.Props.C12
 import Exetera.Model.KernelSitesJoin
 import Exetera.Gen.KernelShape
+import Exetera.Props.C10.Basic
+import Exetera.Props.C10.MapValid
 /-!
 # C10 — compiled kernels never touch memory outside their arrays (join kernels part)
 
@@ -11,9 +13,6 @@ What no model exhibits: the effect of an actual stray write on the heap.
 -/
 namespace Exetera.Props.C10
 open Exetera Exetera.Join Exetera.Spec
-
-def lookup (name : String) : Option (String × List String × List String) :=
-  Gen.kernelShape.find? (fun k => k.1 == name)
 
 /-- the loop guards and subscripts of the modelled join kernels, as regenerated from the current source, are exactly the
     ones the model was written against -/
